@@ -410,7 +410,7 @@ def panic_sites(fn):
     kind: 'call' | 'assert'.  bucket=True for sites written by a foreign macro's own tokens
     (expansion flag set and not one of the std panic macros themselves): counted per function,
     not per site."""
-    reach = fn.reachable(0)
+    reach = fn.reachable(0) - fn.debug_only_blocks()   # debug_assert! bodies are not in release builds
     out = []
     for blk in fn.blocks:
         if blk["cleanup"] or blk["bb"] not in reach:
